@@ -3,4 +3,4 @@ From PV Require Import Base.Prelude Spec.LuaLex Instances.HoldsC02 Instances.Hol
 Require Extraction.
 Require Import ExtrOcamlBasic.
 Extraction "../ocaml/build/MonC01.ml" io_types holds_C01 holds_C01_obs diag_C01 where_C01 holds_C19 holds_C19_obs diag_C19
-  spec_lex sig_toks skind_code.
+  spec_toks sig_toks skind_code.
